@@ -59,24 +59,29 @@ type rule struct {
 // re-runs the rule under (the code it inspects lives in build-constrained files or is shared
 // by every platform).
 var ruleConfigs = map[string][]string{
-	"C18.name-sanitised":   {"windows", "darwin"},
-	"C18.node-paths":       {"windows", "darwin"},
-	"C18.sole-constructor": {"windows", "darwin"},
-	"C18.join-root":        {"darwin"},
-	"C18.lstat-dir":        {"windows", "darwin"},
-	"C19.bounded-alloc":    {"windows", "darwin"},
-	"C19.size-floor":       {"windows", "darwin"},
-	"C19.slice-guards":     {"windows", "darwin"},
-	"C19.tainted-loops":    {"windows", "darwin"},
-	"C20.compress-api":     {"datadog"},
-	"C20.names":            {"windows", "darwin", "datadog"},
-	"C20.one-switch":       {"datadog"},
-	"C05.restore-matrix":   {"darwin"},
-	"C05.mode-tables":      {"darwin"},
+	"C18.name-sanitised":          {"windows", "darwin"},
+	"C18.node-paths":              {"windows", "darwin"},
+	"C18.sole-constructor":        {"windows", "darwin"},
+	"C18.join-root":               {"darwin"},
+	"C18.lstat-dir":               {"windows", "darwin"},
+	"C19.bounded-alloc":           {"windows", "darwin"},
+	"C19.size-floor":              {"windows", "darwin"},
+	"C19.slice-guards":            {"windows", "darwin"},
+	"C19.tainted-loops":           {"windows", "darwin"},
+	"C20.compress-api":            {"datadog"},
+	"C20.names":                   {"windows", "darwin", "datadog"},
+	"C20.one-switch":              {"datadog"},
+	"C05.restore-matrix":          {"darwin"},
+	"C05.mode-tables":             {"darwin"},
 	"C16.format-filter-by-option": {"windows", "darwin"},
-	"C03.backends":         {"windows", "darwin", "datadog"},
-	"C07.done-is-error":    {"windows", "darwin"},
-	"C08.store-typestate":  {"windows", "darwin"},
+	"C03.backends":                {"windows", "darwin", "datadog"},
+	"C07.done-is-error":           {"windows", "darwin"},
+	"C08.store-typestate":         {"windows", "darwin"},
+	"C05.names-opaque":            {"windows", "darwin"},
+	"C19.signed-length":           {"windows", "darwin"},
+	"C07.side-goroutine-errors":   {"windows", "darwin"},
+	"C16.name-roundtrip":          {"windows"},
+	"C14.raw-storage":             {"windows"},
 }
 
 type property struct {
@@ -274,11 +279,11 @@ func main() {
 }
 
 type configRun struct {
-	Config      string `json:"config"`
+	Config      string   `json:"config"`
 	Rules       []string `json:"rules"`
-	Obligations int    `json:"obligations"`
-	Violations  int    `json:"violations"`
-	Status      string `json:"status"`
+	Obligations int      `json:"obligations"`
+	Violations  int      `json:"violations"`
+	Status      string   `json:"status"`
 }
 
 // runConfigs re-runs, each in a child process, the rules of the property that are declared for
@@ -345,14 +350,14 @@ func afterPrefix(text, key string) string {
 
 type result struct {
 	Configs []configRun
-	Obs    []Obligation
-	Rules  map[string]int
-	Panic  string
-	WallS  float64
-	LoadS  float64
-	Seed   int
-	Paths  int
-	Floors map[string]int
+	Obs     []Obligation
+	Rules   map[string]int
+	Panic   string
+	WallS   float64
+	LoadS   float64
+	Seed    int
+	Paths   int
+	Floors  map[string]int
 }
 
 func (r *result) count(v string) int {
@@ -503,21 +508,21 @@ func writeEvidence(verif string, c *Ctx, p *property, res *result, st *selftestR
 	cov := map[string]any{
 		"explanation": "Static analysis of the current source of the repository (go/packages type-checked syntax + go/ssa form of both packages; nothing executed). " +
 			p.Explanation + "  NOT DECIDED by this check: " + p.NotDecided,
-		"obligations":        len(res.Obs),
-		"discharged":         res.count("ok"),
-		"known_findings":     res.count("known"),
-		"evaluations":        len(res.Obs),
+		"obligations":         len(res.Obs),
+		"discharged":          res.count("ok"),
+		"known_findings":      res.count("known"),
+		"evaluations":         len(res.Obs),
 		"distinct_nontrivial": len(distinct),
-		"rule":               "one obligation per (rule, construct) instance found in the analysed program; an instance is distinct by its rule id and construct key (function + role), all are non-trivial (each names code that carries the property)",
-		"rules":              rules,
-		"samples":            samples,
-		"functions_analysed": len(c.Funcs),
-		"packages":           c.pkgPaths(),
-		"files":              c.nFiles,
-		"paths_explored":     res.Paths,
-		"build_config":       c.Config,
-		"checker_cmd":        "bin/desynclint -property " + p.ID + " -tier " + c.Tier,
-		"exhaustive":         false,
+		"rule":                "one obligation per (rule, construct) instance found in the analysed program; an instance is distinct by its rule id and construct key (function + role), all are non-trivial (each names code that carries the property)",
+		"rules":               rules,
+		"samples":             samples,
+		"functions_analysed":  len(c.Funcs),
+		"packages":            c.pkgPaths(),
+		"files":               c.nFiles,
+		"paths_explored":      res.Paths,
+		"build_config":        c.Config,
+		"checker_cmd":         "bin/desynclint -property " + p.ID + " -tier " + c.Tier,
+		"exhaustive":          false,
 	}
 	if st != nil {
 		cov["selftest"] = st
